@@ -80,6 +80,8 @@ package client
 //@ at call cache.(*TableCache).Populate requires wheld(db.cacheMutex) >= 1
 //@ at call cache.(*TableCache).Populate2 requires wheld(db.cacheMutex) >= 1
 //@ at call cache.(*TableCache).Purge requires wheld(db.cacheMutex) >= 1 && reconnecting
+// restarting one of several monitors never purges what the others have loaded (C16, F8)
+//@ at call cache.(*TableCache).Purge requires len(db.monitors) == 1
 //@ ensures_ok (cookie.DatabaseName in o.databases) ==> !o.databases[cookie.DatabaseName].deferUpdates
 //@ ensures_ok (cookie.DatabaseName in o.databases) ==> len(o.databases[cookie.DatabaseName].deferredUpdates) == 0
 
